@@ -1,6 +1,7 @@
 #!/bin/bash
 # tools/seeds_campaign.sh [tier]   re-run every kept seeded change (seeded/*/patch.diff) against the check of its own
 # property: apply to the repository checkout, run, undo. One line per seed; "MISSED" if the check stays silent.
+# SEEDS_FILTER=<regex> restricts the run to the seed ids matching it.
 # With MUT_REPO set (isolated `vp run --with-repo`), that checkout is used instead of /repo.
 cd "$(dirname "$0")/.." || exit 2
 repo="${MUT_REPO:-/repo}"; tier="${1:-quick}"
@@ -8,6 +9,7 @@ if [ -n "${MUT_REPO:-}" ]; then python3 -c "
 import sys; sys.path.insert(0,'tools'); import mutants; mutants.retarget()"; fi
 for d in seeded/*/; do
 	id=$(basename "$d"); [ -f "$d/meta.json" ] || continue
+	[ -n "${SEEDS_FILTER:-}" ] && ! echo "$id" | grep -Eq "$SEEDS_FILTER" && continue
 	prop=$(python3 -c "import json,sys; print(json.load(open('$d/meta.json'))['property'])")
 	git -C "$repo" apply "$PWD/$d/patch.diff" 2>/dev/null || { echo "$id $prop PATCH-DOES-NOT-APPLY"; continue; }
 	start=$(date +%s)
